@@ -330,6 +330,7 @@ class NrtMain(metaclass=Process):
         cls.main_tt._m_seconds = 0.0
         cls.current_tt = cls.main_tt
         cls._clock_scheduler = clk.ClockScheduler()
+        cls._in_awake_call = False  # True while a clock task is awake.
         cls._osc_interface = osci.OscNrtInterface()
         cls._osc_interface.init()
         cls._midi_interface = mii.MidiNrtInterface()
